@@ -209,6 +209,30 @@ func (x *Exec) specForm(name string, e *ast.CallExpr, st *State, sp *SpecCtx) (V
 		nm := map[string]string{"m_exp": "Exp", "m_sqrt": "Sqrt", "m_pow": "Pow", "m_sin": "Sin", "m_log": "Log", "m_cos": "Cos"}[name]
 		v, ok := x.evalMath(nm, args, st, e)
 		return v, ok
+	case "ufint", "ufreal", "ufbool":
+		// uninterpreted spec function: ufint("name", args...)
+		lit, ok := e.Args[0].(*ast.BasicLit)
+		if !ok {
+			x.errorf("%s: first argument must be a string literal", name)
+			return Value{Term: False}, true
+		}
+		fn, _ := strconv.Unquote(lit.Value)
+		var ts []*Term
+		for _, a := range e.Args[1:] {
+			v := x.eval(a, st, sp)
+			if v.Term == nil {
+				x.errorf("%s: argument without value", name)
+				return Value{Term: False}, true
+			}
+			ts = append(ts, v.Term)
+		}
+		switch name {
+		case "ufint":
+			return Value{T: intT, Term: App("uf_"+fn, IntS, ts...)}, true
+		case "ufreal":
+			return Value{T: floatT, Term: App("uf_"+fn, RealS, ts...)}, true
+		}
+		return Value{T: boolT, Term: App("uf_"+fn, BoolS, ts...)}, true
 	case "floor":
 		return Value{T: intT, Term: ToIntFloor(ToReal(num(0)))}, true
 	case "ceil":
@@ -225,7 +249,14 @@ func (x *Exec) specForm(name string, e *ast.CallExpr, st *State, sp *SpecCtx) (V
 		}
 		n := sp
 		for i, p := range m.Params {
-			n = n.with(p, x.eval(e.Args[i], st, sp))
+			av := x.eval(e.Args[i], st, sp)
+			if av.Fields != nil {
+				// struct-valued argument: bind by reference so that field selections resolve to the same keys
+				if loc := x.lval(e.Args[i], st, sp); loc != nil && !loc.Opaque {
+					av = Value{T: av.T, Ptr: loc}
+				}
+			}
+			n = n.with(p, av)
 		}
 		return x.eval(m.Body, st, n), true
 	}
